@@ -12,6 +12,7 @@ import (
 	ethcore "github.com/ethereum/go-ethereum/core"
 	ethvm "github.com/ethereum/go-ethereum/core/vm"
 	ethcrypto "github.com/ethereum/go-ethereum/crypto"
+	abci "github.com/tendermint/tendermint/abci/types"
 
 	"github.com/Oneledger/protocol/data/keys"
 	"github.com/Oneledger/protocol/vm"
@@ -54,14 +55,19 @@ var (
 	coinbaseAd = ethcmn.BytesToAddress(bytes.Repeat([]byte{0xc0}, 20))
 )
 
-func progAccts(c chooser) []Acct {
+func progAccts(c chooser, ex *exclusions) []Acct {
 	kind := []string{"native", "keeper"}[c.Int(0, 1, "richkind")]
+	hollow := "hollow"
+	if ex.on(exHollow) {
+		ex.hit(exHollow)
+		hollow = "none" // the address stays in the pools but does not exist
+	}
 	return []Acct{
 		{Addr: eoaRich.Hex(), Kind: kind, Bal: "1000000000000000000000000", Nonce: uint64(c.Int(0, 2, "richnonce"))},
 		{Addr: eoaKeeper.Hex(), Kind: "keeper", Bal: "1000000000000000000", Nonce: 5},
 		{Addr: eoaPoor.Hex(), Kind: "native", Bal: "400000"},
 		{Addr: accNative.Hex(), Kind: "native", Bal: "7"},
-		{Addr: accHollow.Hex(), Kind: "hollow"},
+		{Addr: accHollow.Hex(), Kind: hollow},
 	}
 }
 
@@ -120,6 +126,69 @@ func (r *progRun) compareFresh(where string) *violation {
 	return v
 }
 
+
+// refApply runs the chain's own ApplyMessage over an EVM built on the given (go-ethereum) state with
+// exactly the block context, chain config and vm config EVMTransaction.NewEVM uses.
+func (r *progRun) refApply(sdb ethvm.StateDB, gp *ethcore.GasPool, hdr *abci.Header, from ethcmn.Address, to *keys.Address, nonce uint64, value *big.Int, data []byte, gas uint64, price *big.Int) (*vm.ExecutionResult, error) {
+	etx := vm.NewEVMTransaction(r.ad.sdb, gp, hdr, keys.Address(from.Bytes()), to, nonce, value, data, nil, gas, price, false)
+	blockCtx := ethvm.BlockContext{
+		CanTransfer: ethcore.CanTransfer,
+		Transfer:    ethcore.Transfer,
+		GetHash:     vm.GetHashFn(r.ad.sdb, hdr),
+		Coinbase:    ethcmn.BytesToAddress(hdr.ProposerAddress),
+		GasLimit:    gp.Gas(),
+		BlockNumber: new(big.Int).SetInt64(hdr.GetHeight()),
+		Time:        new(big.Int).SetInt64(hdr.Time.Unix()),
+		Difficulty:  new(big.Int).Set(vm.DefaultDifficulty),
+	}
+	txCtx := ethvm.TxContext{Origin: from, GasPrice: price}
+	refEVM := ethvm.NewEVM(blockCtx, txCtx, sdb, vm.EthereumConfig(hdr.ChainID), ethvm.Config{ExtraEips: make([]int, 0)})
+	return vm.ApplyMessage(refEVM, etx, gp)
+}
+
+// probe executes the message on a copy of the reference state and reports the exclusion class it
+// would enter ("" when none).
+func (r *progRun) probe(s PStep, ex *exclusions) string {
+	if !ex.any() || s.K != "msg" {
+		return ""
+	}
+	cp := r.ref.sdb.Copy()
+	rec := newRecorder(cp)
+	from := ethcmn.HexToAddress(s.From)
+	var to *keys.Address
+	if s.To != "" {
+		t := keys.Address(ethcmn.HexToAddress(s.To).Bytes())
+		to = &t
+	}
+	value, _ := new(big.Int).SetString(s.Value, 10)
+	if value == nil {
+		value = new(big.Int)
+	}
+	price, _ := new(big.Int).SetString(s.Price, 10)
+	if price == nil {
+		price = new(big.Int)
+	}
+	pool := s.Pool
+	if pool == 0 {
+		pool = math.MaxInt64
+	}
+	cp.Prepare(ethcmn.Hash{1}, 0)
+	var err error
+	if p := guard(func() {
+		_, err = r.refApply(rec, new(ethcore.GasPool).AddGas(pool), header(r.height), from, to, s.Nonce, value, ethcmn.FromHex(s.Data), s.Gas, price)
+	}); p != "" || err != nil {
+		return ""
+	}
+	if ex.on(exDelBal) {
+		for _, a := range rec.addrs {
+			if r.ref.sdb.GetBalance(a).Sign() != 0 && (cp.HasSuicided(a) || (cp.Exist(a) && cp.Empty(a))) {
+				return exDelBal
+			}
+		}
+	}
+	return ""
+}
+
 // execMsg applies one message on both sides through the chain's own message application.
 func (r *progRun) execMsg(i int, s PStep) *violation {
 	where := fmt.Sprintf("step %d msg[%s]", i, s.Note)
@@ -151,23 +220,10 @@ func (r *progRun) execMsg(i int, s PStep) *violation {
 	// --- reference: the chain's ApplyMessage over an EVM built on go-ethereum's state with the same contexts
 	r.ref.sdb.Prepare(thash, r.txN)
 	gpR := new(ethcore.GasPool).AddGas(pool)
-	etxR := vm.NewEVMTransaction(r.ad.sdb, gpR, hdr, keys.Address(from.Bytes()), to, s.Nonce, value, data, nil, s.Gas, price, false)
-	blockCtx := ethvm.BlockContext{
-		CanTransfer: ethcore.CanTransfer,
-		Transfer:    ethcore.Transfer,
-		GetHash:     vm.GetHashFn(r.ad.sdb, hdr),
-		Coinbase:    ethcmn.BytesToAddress(hdr.ProposerAddress),
-		GasLimit:    gpR.Gas(),
-		BlockNumber: new(big.Int).SetInt64(hdr.GetHeight()),
-		Time:        new(big.Int).SetInt64(hdr.Time.Unix()),
-		Difficulty:  new(big.Int).Set(vm.DefaultDifficulty),
-	}
-	txCtx := ethvm.TxContext{Origin: from, GasPrice: price}
-	refEVM := ethvm.NewEVM(blockCtx, txCtx, r.ref.rec, vm.EthereumConfig(hdr.ChainID), ethvm.Config{ExtraEips: make([]int, 0)})
 	snap := r.ref.sdb.Snapshot()
 	var resR *vm.ExecutionResult
 	var errR error
-	if p := guard(func() { resR, errR = vm.ApplyMessage(refEVM, etxR, gpR) }); p != "" {
+	if p := guard(func() { resR, errR = r.refApply(r.ref.rec, gpR, hdr, from, to, s.Nonce, value, data, s.Gas, price) }); p != "" {
 		// a panic on the reference side is an input outside what the EVM supports on either side: not a verdict
 		return &violation{"harness", "reference-panic", where + ": reference side panicked: " + p}
 	}
@@ -425,7 +481,7 @@ func (m *msgGen) next() PStep {
 }
 
 // runProg executes a recorded case (replay) or, when gen != nil, draws n steps on the fly.
-func runProg(c *ProgCase, n int, gen chooser, rawOK bool, noKillBal bool, journal func()) (*violation, *progRun, map[string]int) {
+func runProg(c *ProgCase, n int, gen chooser, rawOK bool, ex *exclusions, journal func()) (*violation, *progRun, map[string]int) {
 	r := newProgRun(c)
 	if v := r.compareFresh("initial state"); v != nil {
 		return v, r, nil
@@ -439,7 +495,7 @@ func runProg(c *ProgCase, n int, gen chooser, rawOK bool, noKillBal bool, journa
 		}
 		c.Focus = f.name
 		p := &pool{eoas: []ethcmn.Address{eoaRich, eoaKeeper, eoaPoor, eoaNone}, others: []ethcmn.Address{accNative, accHollow, accFresh1, accFresh2, preSha, preRipemd, preIdent}}
-		mg = &msgGen{c: gen, r: r, first: true, g: &progGen{c: gen, f: f, p: p, rawOK: rawOK, excluded: excl, noKillBal: noKillBal}}
+		mg = &msgGen{c: gen, r: r, first: true, g: &progGen{c: gen, f: f, p: p, rawOK: rawOK, excluded: excl}}
 	}
 	for i := 0; ; i++ {
 		var s PStep
@@ -448,6 +504,11 @@ func runProg(c *ProgCase, n int, gen chooser, rawOK bool, noKillBal bool, journa
 				break
 			}
 			s = mg.next()
+			if tag := r.probe(s, ex); tag != "" {
+				// inside a known finding's class: draw something benign instead
+				ex.hit(tag)
+				s = PStep{K: "msg", From: eoaRich.Hex(), To: eoaKeeper.Hex(), Nonce: r.ref.sdb.GetNonce(eoaRich), Value: "1", Gas: 21000, Price: "1", Note: "benign(" + tag + ")"}
+			}
 			c.Steps = append(c.Steps, s)
 			if journal != nil {
 				journal()
